@@ -624,6 +624,54 @@ def rule_loader_enumeration(ctx, px):
            "" if ok else f"generation enumerates {reads}: the listing and the run can differ", sg.node.lineno)
 
 
+def rule_support_resolve(ctx, px):
+    R = "R-C08-SUPPORT-RESOLVE"
+    ctx.rule(
+        R,
+        "the support generator loads a support template by name through a loader that searches the user's --support-templates "
+        "folders before the built-in package, so the file it lists for that template must come from the same lookup "
+        "(loader.get_source / env.get_template(...).filename by the resource's name) - not from the built-in resource path",
+    )
+    gh = px.func(GEN_MOD, "SupportGenerator._generate_header")
+    by_name = [c for c in ast.walk(gh.node) if isinstance(c, ast.Call) and isinstance(c.func, ast.Attribute) and c.func.attr == "get_template"
+               and c.args and isinstance(c.args[0], ast.Attribute) and c.args[0].attr == "name"]
+    init = px.func(GEN_MOD, "SupportGenerator.__init__")
+    user_dirs = any(isinstance(k, ast.keyword) and k.arg == "use_support_templates_dir" and ast.unparse(k.value) == "True" for c in ast.walk(init.node)
+                    if isinstance(c, ast.Call) for k in c.keywords)
+    ctx.ob(R, gh.module.rel, f"{gh.short} :: support templates are loaded by name (user folders searched first: {user_dirs})", True,
+           f"{len(by_name)} by-name load(s)", gh.node.lineno)
+    if not by_name or not user_dirs:
+        return
+    gt = px.func(GEN_MOD, "SupportGenerator.get_templates")
+    seen, work, resolved = set(), [gt], []
+    while work:
+        g = work.pop()
+        if g.qual in seen:
+            continue
+        seen.add(g.qual)
+        for c in ast.walk(g.node):
+            if not isinstance(c, ast.Call):
+                continue
+            if isinstance(c.func, ast.Attribute) and c.func.attr in ("get_source", "get_template", "get_or_select_template") and \
+                    any(isinstance(a, ast.Attribute) and a.attr == "name" for a in c.args):
+                resolved.append((g, c))
+            if isinstance(c.func, ast.Attribute) and isinstance(c.func.value, ast.Name) and c.func.value.id == "self" and g.cls is not None:
+                h = g.cls.mro_lookup(c.func.attr)
+                if h is not None:
+                    work.append(h)
+    ok = bool(resolved)
+    ctx.ob(R, gt.module.rel, f"{gt.short} :: each listed support template is resolved through the loader by name", ok,
+           f"in {resolved[0][0].short}" if ok else "the built-in resource path is listed as is: with --support-templates DIR the overriding DIR/<name> is read "
+           "but --list-inputs names the built-in file", gt.node.lineno)
+    # the resolved value is what is returned (not computed and dropped)
+    if ok:
+        g, c = resolved[0]
+        pm = pyfront.parent_map(g.node)
+        st = pyfront.enclosing_stmt(c, pm)
+        used = isinstance(st, (ast.Assign, ast.Return, ast.AnnAssign)) or (isinstance(st, ast.Expr) and st.value is not c)
+        ctx.ob(R, g.module.rel, f"{g.short} :: the loader's answer is used", used, "" if used else "lookup result discarded", c.lineno)
+
+
 def rule_no_bytecode_cache(ctx, px):
     R = "R-C08-NO-CACHE"
     ctx.rule(R, "the Jinja environment is created without a bytecode cache (loading templates must not write to disk)")
@@ -662,4 +710,5 @@ def run(ctx):
     rule_input_closure(ctx, px)
     rule_template_listing(ctx, px)
     rule_loader_enumeration(ctx, px)
+    rule_support_resolve(ctx, px)
     rule_no_bytecode_cache(ctx, px)
